@@ -372,11 +372,11 @@ class _IndexedAttribute(typing.Generic[AttributeT]):
 
         def __set__(self, instance: InstanceT, value: AttributeT) -> None:
             parent = self.parent_getter(instance)
-            if parent:
+            if parent is not None:
                 parent._index_discard(instance)
             setattr(instance, self.attribute_name, value)
             parent = self.parent_getter(instance)
-            if parent:
+            if parent is not None:
                 parent._index_add(instance)
 
         def __delete__(self, instance: InstanceT) -> None:
